@@ -46,6 +46,13 @@ EXTENDS Naturals, Integers, Sequences, FiniteSets, TLC, SequencesExt
 CONSTANT StrictAddr   \* TRUE: PeerAddr follows the property statement (unknown family tags refused, value
                       \* preserved); FALSE: PeerAddr as the code has it (any tag # 0 is IPv6) - see the report
 
+\* The decoder Dec below is ONE function of (type, leaves, version): grin has three implementations of the
+\* Reader trait that must all realise it - BinReader (ser::deserialize, store and tests), BufReader (the p2p
+\* codec reads every message body through it) and StreamingReader (handshake).  Each has its own integer,
+\* fixed-bytes, length-prefixed-bytes and (possibly overridden) read_empty_bytes / expect_u8 code, so every
+\* case and every perturbation is decoded through each of them and must give the outcome Dec states.
+Readers      == <<"bin", "buf", "stream">>
+
 Versions     == {1, 2, 3, 1000}   \* 1000 = ProtocolVersion::local(); local_db() = 1
 LocalVersion == 1000
 DbVersion    == 1
@@ -325,11 +332,12 @@ DecHdr(s, g) ==
 
 (* Block = header + body (no hash-mode body); CompactBlock = header, nonce, body *)
 BlockLay(x, v, maxw) == HdrLay(x.header) \o BodyLay(x.body, v, maxw)
-DecBlock(s, v, g) ==
-    LET h == DecHdr(s, g) IN
+DecBlockH(s, v, g, H(_, _)) ==
+    LET h == H(s, g) IN
     IF ~h.ok THEN Fail
     ELSE LET b == DecBody(h.r, v, g) IN
          IF ~b.ok THEN Fail ELSE Ok([header |-> h.val, body |-> b.val], b.r)
+DecBlock(s, v, g) == DecBlockH(s, v, g, DecHdr)
 
 KidsNode(kids) == SortedNode("kern_ids", [j \in 1..Len(kids) |->
     LET x == kids[j] IN Item(<<Bytes(6, x.id)>>, <<Bytes(6, x.id)>>, x.r, [r |-> x.r])])
@@ -341,8 +349,8 @@ CBlockLay(x, v) ==
        Cnt("u64", Len(x.kern_full), Len(x.kern_ids) = 0, -1),
        Cnt("u64", Len(x.kern_ids), TRUE, -1),
        OutputsNode(x.out_full), KernelsNode(x.kern_full, v), KidsNode(x.kern_ids) >>
-DecCBlock(s, v, g) ==
-    LET h == DecHdr(s, g) IN
+DecCBlockH(s, v, g, H(_, _)) ==
+    LET h == H(s, g) IN
     IF ~h.ok THEN Fail
     ELSE LET t == h.r IN
     IF ~(IsNum(At(t,1), "u64") /\ IsLit(At(t,2), "u64") /\ IsLit(At(t,3), "u64") /\ IsLit(At(t,4), "u64")) THEN Fail
@@ -359,6 +367,25 @@ DecCBlock(s, v, g) ==
                                                         sig |-> kers.val[j].val.sig, r |-> kers.val[j].aux.r]],
                 kern_ids |-> [j \in 1..Len(kids.val) |-> [id |-> kids.val[j].val.id, r |-> kids.val[j].aux.r]]],
                Drop(t, 7))
+DecCBlock(s, v, g) == DecCBlockH(s, v, g, DecHdr)
+
+(* The NETWORK readers (block.rs UntrustedBlockHeader / UntrustedBlock, compact_block.rs UntrustedCompactBlock): what a   *)
+(* peer's bytes go through.  Same layouts; each has its OWN field sequence in the code: header through                    *)
+(* read_block_header plus the admission rules (not too far in the future, version valid at the height, primary or          *)
+(* secondary edge bits, valid proof of work, MMR sizes within the height's bound), then the body (or nonce + compact body) *)
+(* and validate_read.  The proof of work is a primitive: the value class "mined" says the harness solved it for this       *)
+(* header; only admissible headers are generated, every other header is refused here (an over-approximation that is never  *)
+(* compared).  The canonical-form rules are those of the trusted readers - a network reader must refuse every perturbed    *)
+(* body exactly as the trusted one does, never re-sort or de-duplicate it.                                                 *)
+Admissible(h) == /\ h.version.cls = "one" /\ h.height.cls = "zero" /\ h.ts.cls = "ts_zero"
+                 /\ h.oms.cls = "zero" /\ h.kms.cls = "zero" /\ h.pow.proof.nonces.cls = "mined"
+DecUHdr(s, g) == LET h == DecHdr(s, g) IN IF h.ok /\ Admissible(h.val) THEN h ELSE Fail
+DecUBlock(s, v, g) ==
+    LET b == DecBlockH(s, v, g, DecUHdr) IN
+    IF ~b.ok THEN Fail
+    ELSE IF CommitsOf(b.val.body.inputs.items) \cap CommitsOf(b.val.body.outputs) # {} THEN Fail   \* validate_read: cut-through
+    ELSE b
+DecUCBlock(s, v, g) == DecCBlockH(s, v, g, DecUHdr)
 
 -----------------------------------------------------------------------------
 (* Flat records: a grammar is a sequence of [f, k] / [f, k = "bytes", n]   *)
@@ -376,9 +403,10 @@ FlatG(ty) ==
       [] ty = "SegmentRequest" -> <<[f |-> "block_hash", k |-> "bytes", n |-> 32], [f |-> "height", k |-> "u8"],
                                     [f |-> "idx", k |-> "u64"]>>
       [] ty = "HeaderEntry" -> <<[f |-> "hash", k |-> "bytes", n |-> 32], [f |-> "timestamp", k |-> "u64"],
-                                 [f |-> "total_difficulty", k |-> "u64"], [f |-> "secondary_scaling", k |-> "u32"]>>
+                                 [f |-> "total_difficulty", k |-> "u64"], [f |-> "secondary_scaling", k |-> "u32"],
+                                 [f |-> "is_secondary", k |-> "u8"]>>   \* header MMR leaf (block.rs); the flag is one byte, 0 or 1 (class "bool")
 FlatTypes == {"Tip", "CommitPos", "Ping", "Pong", "GetPeerAddrs", "TxHashSetRequest", "TxHashSetArchive",
-              "SegmentIdentifier", "SegmentRequest"}
+              "SegmentIdentifier", "SegmentRequest", "HeaderEntry"}
 FlatLay(gr, x) == [j \in 1..Len(gr) |-> IF gr[j].k = "bytes" THEN Bytes(gr[j].n, x[gr[j].f]) ELSE Num(gr[j].k, x[gr[j].f])]
 FlatDec(gr, s) ==
     IF Len(s) < Len(gr) THEN Fail
@@ -388,10 +416,15 @@ FlatDec(gr, s) ==
                 IN IF gr[j].k = "bytes" THEN s[j].sym ELSE SV(s[j])], Drop(s, Len(gr)))
 FlatVal(gr, pfx, cls) == [f \in {gr[j].f : j \in 1..Len(gr)} |->
     LET j == CHOOSE j \in 1..Len(gr) : gr[j].f = f
-    IN IF gr[j].k = "bytes" THEN pfx \o f ELSE NV(pfx \o f, IF f = "capabilities" THEN "caps" ELSE cls)]
+    IN IF gr[j].k = "bytes" THEN pfx \o f ELSE NV(pfx \o f, IF f = "capabilities" THEN "caps" ELSE IF f = "is_secondary" THEN "bool" ELSE cls)]
 
 (* PeerAddr (p2p/types.rs).  The property asks for unknown type tags to be  *)
 (* refused: tag 0 = IPv4, tag 1 = IPv6.                                     *)
+\* IPv6 value classes (the 16 bytes are symbolic; the class says how they are drawn).  The decoded VALUE is
+\* the written one for every class: in particular ::1 (loopback), :: and the IPv4-compatible range ::a.b.c.d
+\* stay IPv6 (std's to_ipv4() would fold them into 0.0.0.1 / 0.0.0.0 / a.b.c.d), and so does the mapped range
+\* ::ffff:a.b.c.d under the property statement (StrictAddr).
+Ip6Classes == {"ip6_native", "ip6_loopback", "ip6_unspecified", "ip6_compat"} \cup (IF StrictAddr THEN {"ip6_mapped"} ELSE {})
 PABad == IF StrictAddr THEN <<2, 255>> ELSE <<>>
 AddrLay(a) == IF a.fam = 4 THEN <<TagL(0, PABad), Bytes(4, a.ip), Num("u16", a.port)>>
               ELSE <<TagL(1, PABad), [k |-> "bytes", n |-> 16, sym |-> a.ip, cls |-> a.ipcls], Num("u16", a.port)>>
@@ -500,8 +533,13 @@ BmBlockLay(b) ==
        (CASE m = 1 -> <<Lit("u16", b.npos), [k |-> "bitidx", sym |-> b.sym, nbits |-> nbits, npos |-> b.npos, neg |-> FALSE, oob |-> FALSE]>>
           [] m = 2 -> <<Lit("u16", nbits - b.npos), [k |-> "bitidx", sym |-> b.sym, nbits |-> nbits, npos |-> b.npos, neg |-> TRUE, oob |-> FALSE]>>
           [] m = 0 -> <<[k |-> "bitraw", sym |-> b.sym, nbits |-> nbits, npos |-> b.npos]>>)
+\* The segment height is a literal: it decides the capacity of the segment (2^height chunks of 1024 bits),
+\* BitmapSegment::max_chunks / validate_blocks.  Heights above BmMaxHeight are refused by the reader.
+BmMaxHeight == 13
+BmCapacity(h) == 2^h
+BmHeightLeaf(h) == [k |-> "u8", v |-> h, role |-> "seg_height"]
 BmSegLay(x) ==
-    <<Num("u8", x.id.height), Num("u64", x.id.idx), [k |-> "u16", v |-> Len(x.blocks), role |-> "nblocks"]>>
+    <<BmHeightLeaf(x.id.height), Num("u64", x.id.idx), [k |-> "u16", v |-> Len(x.blocks), role |-> "nblocks"]>>
     \o Flatten([j \in 1..Len(x.blocks) |-> BmBlockLay(x.blocks[j])]) \o SegProofLay(x.proof)
 DecBmBlock(s) ==
     IF ~(IsLit(At(s,1), "u8") /\ IsLit(At(s,2), "u8")) THEN Fail
@@ -515,19 +553,66 @@ DecBmBlock(s) ==
             /\ s[3].v = (IF m = 1 THEN s[4].npos ELSE nbits - s[4].npos)
          THEN Ok([nch |-> s[1].v, npos |-> s[4].npos, sym |-> s[4].sym], Drop(s, 4)) ELSE Fail)
     ELSE Fail
-\* heightcls -> capacity in chunks (2^height); the shapes use height 7 (128 chunks = 2 blocks)
-BmCapacity == 128
+\* ceiling division: a segment of height < 6 (fewer than 64 chunks) still occupies ONE block
+BmMaxBlocks(h) == (BmCapacity(h) + BlockChunks - 1) \div BlockChunks
 DecBmSeg(s) ==
-    IF ~(IsNum(At(s,1), "u8") /\ IsNum(At(s,2), "u64") /\ IsLit(At(s,3), "u16")) THEN Fail
-    ELSE LET nb == s[3].v IN
+    IF ~(IsLit(At(s,1), "u8") /\ IsNum(At(s,2), "u64") /\ IsLit(At(s,3), "u16")) THEN Fail
+    ELSE LET h == s[1].v   nb == s[3].v IN
     IF nb = 0 THEN Fail
-    ELSE IF nb > (BmCapacity + BlockChunks - 1) \div BlockChunks THEN Fail
+    ELSE IF h > BmMaxHeight THEN Fail                                  \* max_chunks: TooLargeReadErr
+    ELSE IF nb > BmMaxBlocks(h) THEN Fail
     ELSE LET bl == DecMany(Drop(s, 3), nb, DecBmBlock) IN IF ~bl.ok THEN Fail
     ELSE IF \E j \in 1..(nb - 1) : bl.val[j].nch # BlockChunks THEN Fail
     ELSE IF bl.val[nb].nch = 0 THEN Fail
+    ELSE IF (nb - 1) * BlockChunks + bl.val[nb].nch > BmCapacity(h) THEN Fail   \* validate_blocks: more chunks than the height holds
     ELSE IF ~IsLit(At(bl.r, 1), "u64") THEN Fail
     ELSE LET ph == DecMany(Drop(bl.r, 1), bl.r[1].v, DecHash) IN IF ~ph.ok THEN Fail
-    ELSE Ok([id |-> [height |-> SV(s[1]), idx |-> SV(s[2])], blocks |-> bl.val, proof |-> ph.val], ph.r)
+    ELSE Ok([id |-> [height |-> h, idx |-> SV(s[2])], blocks |-> bl.val, proof |-> ph.val], ph.r)
+
+-----------------------------------------------------------------------------
+(* PIBD sync messages (p2p/msg.rs): the segment responses wrap a segment    *)
+(* between the block hash and (for outputs / bitmap) the root of the OTHER   *)
+(* MMR.  Segment<RangeProof> has a length-prefixed leaf (only full-length    *)
+(* proofs are in scope, as for Output).                                      *)
+RProofLay(x) == <<Lit("u64", ProofLen), Bytes(ProofLen, x.proof)>>
+DecRProof(s) == IF IsLit(At(s,1), "u64") /\ At(s,1).v = ProofLen /\ IsBytes(At(s,2), ProofLen)
+                THEN Ok([proof |-> s[2].sym], Drop(s, 2)) ELSE Fail
+SegLeafLay(lt, y, w) == CASE lt = "kernel" -> KernLay(y, w) [] lt = "outid" -> OutIdLay(y) [] lt = "rproof" -> RProofLay(y)
+SegLeafDec(lt, b, v, g) == CASE lt = "kernel" -> DecKern(b, v, g) [] lt = "outid" -> DecOutId(b) [] lt = "rproof" -> DecRProof(b)
+SegRespLay(x, v, lt) == <<Bytes(32, x.block_hash)>> \o SegLay(x.segment, v, LAMBDA y, w : SegLeafLay(lt, y, w))
+DecSegResp(s, v, g, lt) ==
+    IF ~IsBytes(At(s,1), 32) THEN Fail
+    ELSE LET a == DecSeg(Drop(s, 1), LAMBDA b : SegLeafDec(lt, b, v, g)) IN
+         IF ~a.ok THEN Fail ELSE Ok([block_hash |-> s[1].sym, segment |-> a.val], a.r)
+OutSegRespLay(x, v) == SegRespLay(x.response, v, "outid") \o <<Bytes(32, x.output_bitmap_root)>>
+DecOutSegResp(s, v, g) ==
+    LET a == DecSegResp(s, v, g, "outid") IN
+    IF ~a.ok THEN Fail
+    ELSE IF ~IsBytes(At(a.r, 1), 32) THEN Fail
+    ELSE Ok([response |-> a.val, output_bitmap_root |-> a.r[1].sym], Drop(a.r, 1))
+BmSegRespLay(x) == <<Bytes(32, x.block_hash)>> \o BmSegLay(x.segment) \o <<Bytes(32, x.output_root)>>
+DecBmSegResp(s) ==
+    IF ~IsBytes(At(s,1), 32) THEN Fail
+    ELSE LET a == DecBmSeg(Drop(s, 1)) IN
+    IF ~a.ok THEN Fail
+    ELSE IF ~IsBytes(At(a.r, 1), 32) THEN Fail
+    ELSE Ok([block_hash |-> s[1].sym, segment |-> a.val, output_root |-> a.r[1].sym], Drop(a.r, 1))
+
+(* PeerError: code + length-prefixed utf8 message; BlockSums: two commitments; MerkleProof: mmr size, u64 path   *)
+(* count (at most MaxMerklePath entries), hashes                                                                 *)
+MaxMerklePath == 128
+PeerErrorLay(x) == <<Num("u32", x.code), Lit("u64", x.msglen), [k |-> "bytes", n |-> x.msglen, sym |-> x.msg, cls |-> "ascii"]>>
+DecPeerError(s) == IF IsNum(At(s,1), "u32") /\ IsLit(At(s,2), "u64") /\ At(s,3).k = "bytes" /\ At(s,3).n = s[2].v
+                   THEN Ok([code |-> SV(s[1]), msglen |-> s[2].v, msg |-> s[3].sym], Drop(s, 3)) ELSE Fail
+BlockSumsLay(x) == <<Bytes(33, x.utxo_sum), Bytes(33, x.kernel_sum)>>
+DecBlockSums(s) == IF IsBytes(At(s,1), 33) /\ IsBytes(At(s,2), 33)
+                   THEN Ok([utxo_sum |-> s[1].sym, kernel_sum |-> s[2].sym], Drop(s, 2)) ELSE Fail
+MerkleProofLay(x) == <<Num("u64", x.mmr_size), Cnt("u64", Len(x.path), TRUE, MaxMerklePath)>> \o [j \in 1..Len(x.path) |-> Bytes(32, x.path[j])]
+DecMerkleProof(s) ==
+    IF ~(IsNum(At(s,1), "u64") /\ IsLit(At(s,2), "u64")) THEN Fail
+    ELSE IF s[2].v > MaxMerklePath THEN Fail
+    ELSE LET m == DecMany(Drop(s, 2), s[2].v, DecHash) IN
+         IF ~m.ok THEN Fail ELSE Ok([mmr_size |-> SV(s[1]), path |-> m.val], m.r)
 
 -----------------------------------------------------------------------------
 (* Dispatch.  g = [nrd |-> BOOLEAN, chain |-> "auto" | "main"]              *)
@@ -561,6 +646,14 @@ Lay(ty, x, v, g) ==
       [] ty = "SegmentOutId" -> SegLay(x, v, LAMBDA y, w : OutIdLay(y))
       [] ty = "SegmentKernel" -> SegLay(x, v, LAMBDA y, w : KernLay(y, w))
       [] ty = "BitmapSegment" -> BmSegLay(x)
+      [] ty = "SegmentRangeProof" -> SegLay(x, v, LAMBDA y, w : RProofLay(y))
+      [] ty = "SegmentResponseKernel" -> SegRespLay(x, v, "kernel")
+      [] ty = "SegmentResponseRangeProof" -> SegRespLay(x, v, "rproof")
+      [] ty = "OutputSegmentResponse" -> OutSegRespLay(x, v)
+      [] ty = "OutputBitmapSegmentResponse" -> BmSegRespLay(x)
+      [] ty = "PeerError" -> PeerErrorLay(x)
+      [] ty = "BlockSums" -> BlockSumsLay(x)
+      [] ty = "MerkleProof" -> MerkleProofLay(x)
 
 Dec(ty, s, v, g) ==
     CASE ty = "KernelFeatures" -> DecKF(s, v, g)
@@ -585,8 +678,23 @@ Dec(ty, s, v, g) ==
       [] ty = "SegmentOutId" -> DecSeg(s, DecOutId)
       [] ty = "SegmentKernel" -> DecSeg(s, LAMBDA b : DecKern(b, v, g))
       [] ty = "BitmapSegment" -> DecBmSeg(s)
+      [] ty = "SegmentRangeProof" -> DecSeg(s, DecRProof)
+      [] ty = "SegmentResponseKernel" -> DecSegResp(s, v, g, "kernel")
+      [] ty = "SegmentResponseRangeProof" -> DecSegResp(s, v, g, "rproof")
+      [] ty = "OutputSegmentResponse" -> DecOutSegResp(s, v, g)
+      [] ty = "OutputBitmapSegmentResponse" -> DecBmSegResp(s)
+      [] ty = "PeerError" -> DecPeerError(s)
+      [] ty = "BlockSums" -> DecBlockSums(s)
+      [] ty = "MerkleProof" -> DecMerkleProof(s)
 
 HasDecoder(ty) == ty # "Headers"
+
+\* via = "trusted": the Readable of the type itself; via = "untrusted": the network reader of the same layout
+UntrustedTypes == {"BlockHeader", "Block", "CompactBlock"}
+DecVia(via, ty, s, v, g) ==
+    IF via = "untrusted"
+    THEN CASE ty = "BlockHeader" -> DecUHdr(s, g) [] ty = "Block" -> DecUBlock(s, v, g) [] ty = "CompactBlock" -> DecUCBlock(s, v, g)
+    ELSE Dec(ty, s, v, g)
 
 Norm(ty, x, v) ==
     CASE ty = "TransactionBody" -> NormBody(x, v)
@@ -618,6 +726,8 @@ LeafPerts(l) ==
           THEN {[cls |-> "count_over_limit", leaf |-> Lit(l.k, l.lim + 1)]} ELSE {})
     \cup (IF "role" \in DOMAIN l /\ l.role = "nblocks"
           THEN {[cls |-> "count_zero", leaf |-> Lit(l.k, 0)]} ELSE {})
+    \cup (IF "role" \in DOMAIN l /\ l.role = "seg_height"
+          THEN {[cls |-> "segment_height_range", leaf |-> Lit("u8", e)] : e \in {BmMaxHeight + 1, 64, 255}} ELSE {})
     \cup (IF "role" \in DOMAIN l /\ l.role = "edge_bits"
           THEN {[cls |-> "edge_bits_range", leaf |-> Lit("u8", e)] : e \in {0, 64, 255}} ELSE {})
     \cup (IF l.k = "bitpack" /\ l.padbits > 0
